@@ -113,6 +113,17 @@ def discharge(site, ts, ex):
             bnd = ex.ivar_bounds.get(ops["a"])
             if bnd is not None:
                 return "R-ivar-inc (i < bound inside the loop, so i + 1 <= bound does not overflow)", ""
+        if kind == "Overflow" and site.get("op") == "Add" and isinstance(ops.get("b"), tuple) and ops["b"][0] == "gamma" \
+                and {ops["b"][2], ops["b"][3]} == {cu(0), cu(1)} and isinstance(ops["b"][1], tuple):
+            # n + usize::from(c): + 0 cannot overflow; + 1 happens exactly when c holds (resp. does not hold)
+            one_when = ops["b"][2] == cu(1)
+            a_, pol_ = lit(ops["b"][1])
+            f2 = dict(facts)
+            f2[a_] = (pol_ == one_when)
+            s2 = dict(site)
+            s2["operands"] = dict(ops, b=cu(1))
+            s2["facts"] = f2
+            return discharge(s2, ts, ex)
         if kind == "Overflow" and site.get("op") == "Add":
             a, b = ops.get("a"), ops.get("b")
             if b != cu(1) or not (isinstance(a, tuple) and a[0] == "pre" and a[1].startswith("self.")):
@@ -212,6 +223,29 @@ def contradicts_invariants(facts, ts):
     return None
 
 
+def locally_false(facts):
+    """a branch fact `x < k` / `k < x` (k a constant) that the sign analysis of the expression x itself refutes, with nothing assumed
+    about inputs or state (every unknown is "any f64, maybe NaN"): |e| < 0.0, max(|a|, ..) < 0.0, ...  A NaN operand makes the
+    comparison false, which is the non-panicking side of `debug_assert!(!(d < 0.0))`."""
+    import signs
+    for a, v in facts.items():
+        if not (isinstance(a, tuple) and len(a) == 3 and a[0] in ("<", "<=") and v is True):
+            continue
+        x, k = a[1], a[2]
+        try:
+            if is_const(k) and not is_const(x) and k[1] == "f64":
+                iv = signs.evaluate(x, signs.Env({}, {}))
+                if iv.lo > k[2] or (iv.lo == k[2] and (a[0] == "<" or iv.lo_open)):
+                    return "the value compared is never %s %s" % ("below" if a[0] == "<" else "at or below", k[2])
+            if is_const(x) and not is_const(k) and x[1] == "f64":
+                iv = signs.evaluate(k, signs.Env({}, {}))
+                if iv.hi < x[2] or (iv.hi == x[2] and (a[0] == "<" or iv.hi_open)):
+                    return "the value compared is never %s %s" % ("above" if a[0] == "<" else "at or above", x[2])
+        except Exception:
+            continue
+    return None
+
+
 def infeasible_panic(f, blk, sites):
     """every recorded branch into the panicking region that contains block `blk` contradicts an invariant -> rule text, else None"""
     if not sites:
@@ -244,6 +278,8 @@ def infeasible_panic(f, blk, sites):
             a, pol = lit(c)
             facts[a] = pol
         why = contradicts_invariants(facts, ts_)
+        if why is None:
+            why = locally_false(facts)
         if why is None:
             return None
         reasons.add(why)
